@@ -3,23 +3,464 @@
 R1 parallel lists built under one guard from one enumerate   R2 id->genome map orientation
 R3 id_attr / completeness guards dominate a constructed database   R4 id attribute whitelist
 R5 exactly one genome file and one signature file   R6 query uses signatures + indices + genomes of ONE database object
+
+The rules decide by value flow, not by statement shape:
+  * a local is read through to the expression it was bound to (`_subst`: unique structured reaching definition, refused when a
+    name of that expression is rebound in between, never through a mutable display);
+  * a list is described by HOW its elements derive from the positions of a source sequence (`_Derive` -> `_Seq`: source, filter
+    condition in comparison normal form, element = position / item / rank in a filtered list / tuple of those), whether it is
+    built by an append loop, a comprehension, a comprehension over another derived list or `src[i] for i in <derived indices>`;
+  * guards are path facts (`_facts`): if/else, guard clauses with early exit, asserts, and the post-condition of a nested
+    checking helper at its call sites.
 """
 import ast
+import copy
 
-from ..astutil import (u, atoms, guard_map, path_atoms, stmts_in, calls_in, callee, callee_attr, reaching_def, def_value,
-                       PARAM, AMBIGUOUS, raised_name, assigns_to, get_arg, get_kw, block_path, find_parent_map, is_none, is_const)
+from ..affine import Aff
+from ..astutil import (u, atoms, guard_map, path_atoms, stmts_in, calls_in, callee_attr, reaching_def, def_value,
+                       PARAM, AMBIGUOUS, raised_name, assigns_to, get_arg, block_path, find_parent_map, is_none, is_const,
+                       names_in, always_exits, binds_deep, enclosing_stmt)
 from ..report import Undecided
 
 MOD = 'gambit.db.refdb'
 
 
-def _len_count_key(n):
-    return u(n)
+# ------------------------------------------------------------------------------------------ reading through locals
+
+_DISPLAY = (ast.List, ast.Dict, ast.Set, ast.ListComp, ast.SetComp, ast.DictComp, ast.GeneratorExp, ast.Lambda)
+_CONTAINER_CTORS = ('list', 'set', 'dict', 'tuple', 'frozenset', 'sorted', 'bytearray', 'iter')
+
+
+def _comp_bound(expr):
+    """Names bound inside expr itself (comprehension targets, lambda parameters): never read through."""
+    out = set()
+    for n in ast.walk(expr):
+        if isinstance(n, ast.comprehension):
+            out |= {x.id for x in ast.walk(n.target) if isinstance(x, ast.Name)}
+        elif isinstance(n, ast.Lambda):
+            out |= {a.arg for a in n.args.posonlyargs + n.args.args + n.args.kwonlyargs}
+    return out
+
+
+def _local_value(fn, name, at):
+    """(definition statement, expression) whose value the local `name` holds at statement `at`, else (None, None).
+    Only a unique structured reaching definition `name = E` / `a, name = E` counts; refused when E is a mutable display
+    (it may be filled later) or when a name read by E is rebound between the definition and `at` (stale copy)."""
+    d = reaching_def(fn, name, at)
+    v = None
+    if isinstance(d, ast.Assign) and len(d.targets) == 1:
+        t = d.targets[0]
+        if isinstance(t, ast.Name):
+            v = d.value
+        elif isinstance(t, (ast.Tuple, ast.List)) and all(isinstance(e, ast.Name) for e in t.elts):
+            k = [e.id for e in t.elts].index(name)
+            if [e.id for e in t.elts].count(name) != 1:
+                return None, None
+            if isinstance(d.value, (ast.Tuple, ast.List)) and len(d.value.elts) == len(t.elts) and not any(isinstance(e, ast.Starred) for e in d.value.elts):
+                v = d.value.elts[k]
+            elif not isinstance(d.value, _DISPLAY):
+                v = ast.copy_location(ast.Subscript(value=d.value, slice=ast.Constant(value=k), ctx=ast.Load()), d.value)
+    elif isinstance(d, ast.AnnAssign) and isinstance(d.target, ast.Name) and d.value is not None:
+        v = d.value
+    if v is None or isinstance(v, _DISPLAY):
+        return None, None
+    if isinstance(v, ast.Call) and isinstance(v.func, ast.Name) and v.func.id in _CONTAINER_CTORS and not v.args and not v.keywords:
+        return None, None
+    for nm in names_in(v) - _comp_bound(v):
+        a, b = reaching_def(fn, nm, d), reaching_def(fn, nm, at)
+        if a is AMBIGUOUS or b is AMBIGUOUS or a is not b:
+            return None, None
+    return d, v
+
+
+class _Subst(ast.NodeTransformer):
+    def __init__(self, fn, at, depth, skip, keep=()):
+        self.fn, self.at, self.depth, self.skip, self.keep = fn, at, depth, skip, keep
+
+    def visit_Name(self, node):
+        if not isinstance(node.ctx, ast.Load) or node.id in self.skip or self.depth > 8:
+            return node
+        d, v = _local_value(self.fn, node.id, self.at)
+        if v is None:
+            return node
+        return _subst(self.fn, v, d, self.depth + 1, self.keep)
+
+
+def _subst(fn, expr, at, depth=0, keep=()):
+    """expr with every local read through to the expression it was bound to (recursively), as a fresh tree.
+    Names in `keep` stay as they are (e.g. the name of the sequence a rule reasons about)."""
+    if expr is None or at is None:
+        return expr
+    return _Subst(fn, at, depth, _comp_bound(expr) | set(keep), tuple(keep)).visit(copy.deepcopy(expr))
+
+
+def _xguards(fn, guards, keep=()):
+    """A guard list [(test, polarity)] of guard_map(fn) with the tests read through locals (a named condition is its value)."""
+    owners = {id(s.test): s for s in stmts_in(fn.body) if isinstance(s, (ast.If, ast.While, ast.Assert))}
+    return [(_subst(fn, t, owners.get(id(t)), keep=keep), p) for (t, p) in guards]
+
+
+def _facts(fn, guards, key=u, keep=()):
+    """Atoms of a guard list after reading through locals; a non-conjunctive guard is kept as one opaque ('cond', ...) fact
+    so that two different such guards never compare equal."""
+    out = set()
+    for t, p in _xguards(fn, guards, keep):
+        a = atoms(t, p, key)
+        if a is None:
+            out.add(('cond', 'holds' if p else 'fails', key(t)))
+        else:
+            out |= a
+    return out
+
+
+class _Replace(ast.NodeTransformer):
+    """Replace every sub-expression whose text is a key of `table` (text -> replacement node factory)."""
+
+    def __init__(self, table):
+        self.table = table
+
+    def visit(self, node):
+        if isinstance(node, ast.expr):
+            t = u(node)
+            if t in self.table:
+                return self.table[t]()
+        return self.generic_visit(node)
+
+
+def _replace(expr, table):
+    return _Replace(table).visit(copy.deepcopy(expr))
+
+
+def _strip_materialise(e):
+    """X of list(X) / tuple(X) / sorted(X) / set(X) / frozenset(X) (order is irrelevant to the caller) and whether one was stripped."""
+    wrapped = False
+    while isinstance(e, ast.Call) and isinstance(e.func, ast.Name) and e.func.id in ('list', 'tuple', 'sorted', 'set', 'frozenset') and len(e.args) == 1 and not e.keywords:
+        e = e.args[0]
+        wrapped = True
+    return e, wrapped
+
+
+# ------------------------------------------------------------------------------------------ derived lists
+
+IDX, ELEM, RANK = 'IDX__', 'ELEM__', 'RANK__'   # position in the source / source[position] / position in a filtered list
+
+
+class _Seq:
+    """A collection holding, for every position p of `src` (in increasing p when `ordered`) that satisfies `filt`,
+    the value `elt` (IDX, ELEM, RANK, ('tuple', ...), ('other', text))."""
+
+    def __init__(self, src, src_node, filt, elt, site, how, notes=()):
+        self.src, self.src_node, self.filt, self.elt, self.site, self.how, self.notes = src, src_node, frozenset(filt), elt, site, how, tuple(notes)
+
+    def describe(self):
+        return f'{self.how}: element {self.elt} of source {self.src[1]} where {sorted(self.filt)}' + (f' ({"; ".join(self.notes)})' if self.notes else '')
+
+
+class _Derive:
+    """Evaluates list-valued expressions of one function to _Seq.  `None` = not a constructed collection (a source)."""
+
+    def __init__(self, fn, gm, what, ordered=True):
+        self.fn, self.gm, self.what, self.ordered = fn, gm, what, ordered
+        self.pm = find_parent_map(fn)
+
+    def und(self, msg):
+        raise Undecided(f'{self.what}: {msg}')
+
+    # -- sources
+    def srckey(self, x, at):
+        """(identity, text, node) of a source sequence expression: the defining statement for a local, the text otherwise."""
+        inner, _ = _strip_materialise(x) if not self.ordered else (x, False)
+        if isinstance(x, ast.Name):
+            d = reaching_def(self.fn, x.id, at)
+            if isinstance(d, ast.stmt):
+                if len(assigns_to(self.fn, x.id)) != 1:
+                    self.und(f'source sequence {x.id} is bound more than once')
+                v = def_value(d)
+                return ('def', id(d)), x.id, (v if v is not None else x)
+            if d is AMBIGUOUS:
+                self.und(f'source sequence {x.id} has no unique definition')
+            return ('name', x.id), x.id, x
+        return ('text', u(inner)), u(x), x
+
+    # -- collection-valued expressions
+    def _empty_ctor(self, v):
+        if isinstance(v, ast.List) and not v.elts:
+            return 'list'
+        if isinstance(v, ast.Call) and isinstance(v.func, ast.Name) and not v.args and not v.keywords and v.func.id in ('list', 'set'):
+            return v.func.id
+        return None
+
+    def seq_of(self, e, at, depth=0):
+        if depth > 6:
+            self.und('derivation chain too deep')
+        if isinstance(e, ast.ListComp) or (isinstance(e, ast.SetComp) and not self.ordered):
+            return self.comp_form(e, at, depth)
+        if isinstance(e, ast.Call) and isinstance(e.func, ast.Name) and e.func.id in (('list',) if self.ordered else ('list', 'set', 'frozenset', 'tuple')) \
+                and len(e.args) == 1 and not e.keywords:
+            a = e.args[0]
+            if isinstance(a, ast.GeneratorExp):
+                return self.comp_form(a, at, depth)
+            return self.seq_of(a, at, depth + 1)
+        if not isinstance(e, ast.Name):
+            return None
+        n = e.id
+        d = reaching_def(self.fn, n, at)
+        if d in (None, PARAM):
+            return None
+        ds = assigns_to(self.fn, n)
+        if d is AMBIGUOUS or len(ds) != 1:
+            # a collection assigned on several paths: only a plain source is acceptable, and that cannot be told here
+            if any(self._empty_ctor(def_value(x)) or isinstance(def_value(x), (ast.ListComp, ast.SetComp)) for x in ds):
+                self.und(f'collection {n} is built on more than one path')
+            return None
+        v = def_value(d)
+        if v is None:
+            return None
+        mut = [c for c in calls_in(self.fn) if isinstance(c.func, ast.Attribute) and isinstance(c.func.value, ast.Name) and c.func.value.id == n]
+        grow = [c for c in mut if c.func.attr in ('append', 'add', 'extend', 'insert', 'update', 'sort', 'reverse', 'remove', 'clear', 'discard', '__setitem__', '__delitem__')]
+        grow += [s for s in stmts_in(self.fn.body) if isinstance(s, ast.AugAssign) and isinstance(s.target, ast.Name) and s.target.id == n]
+        grow += [s for s in stmts_in(self.fn.body) if isinstance(s, (ast.Assign, ast.Delete)) and any(isinstance(t, ast.Subscript) and isinstance(t.value, ast.Name) and t.value.id == n
+                                                                                                  for t in (s.targets if hasattr(s, 'targets') else []))]
+        kind = self._empty_ctor(v)
+        if kind is not None:
+            if kind == 'set' and self.ordered:
+                self.und(f'{n} is a set (no order)')
+            want = 'add' if kind == 'set' else 'append'
+            if len(grow) != 1 or not isinstance(grow[0], ast.Call) or grow[0].func.attr != want:
+                self.und(f'{n} starts empty and is filled by something other than exactly one .{want}() site: {[u(g)[:40] for g in grow]}')
+            return self.loop_form(n, grow[0], d, depth)
+        if isinstance(v, (ast.ListComp, ast.SetComp)) or (isinstance(v, ast.Call) and isinstance(v.func, ast.Name) and v.func.id in ('list', 'set', 'frozenset', 'tuple')):
+            s = self.seq_of(v, d, depth + 1)
+            if s is not None and grow:
+                self.und(f'{n} is modified after it is built: {[u(g)[:40] for g in grow]}')
+            return s
+        return None
+
+    # -- binders: what the loop / generator variables stand for
+    def binder(self, target, it, at, depth):
+        """-> (bindings {name: component}, src key triple, inherited filter, notes)"""
+        notes = []
+
+        def names_of(t, n):
+            if isinstance(t, (ast.Tuple, ast.List)) and len(t.elts) == n and all(isinstance(e, ast.Name) for e in t.elts):
+                return [e.id for e in t.elts]
+            return None
+
+        def bind_elem(t, comp, bind):
+            if isinstance(t, ast.Name):
+                bind[t.id] = comp
+            elif isinstance(t, (ast.Tuple, ast.List)) and isinstance(comp, tuple) and comp[0] == 'tuple' and names_of(t, len(comp[1])) is not None:
+                for nm, c in zip(names_of(t, len(comp[1])), comp[1]):
+                    bind[nm] = c
+            else:
+                self.und(f'loop target {u(t)} does not match the elements it iterates ({comp})')
+
+        if isinstance(it, ast.Call) and isinstance(it.func, ast.Name) and it.func.id == 'enumerate' and it.args:
+            start = it.args[1] if len(it.args) > 1 else next((k.value for k in it.keywords if k.arg == 'start'), None)
+            if len(it.args) > 2 or any(k.arg != 'start' for k in it.keywords):
+                self.und(f'unrecognised enumerate call {u(it)}')
+            if not (isinstance(target, (ast.Tuple, ast.List)) and len(target.elts) == 2 and isinstance(target.elts[0], ast.Name)):
+                self.und(f'enumerate target is not a pair: {u(target)}')
+            x = it.args[0]
+            s = self.seq_of(x, at, depth + 1)
+            bind = {}
+            shifted = start is not None and not is_const(start, 0)
+            if shifted:
+                notes.append(f'enumerate starts at {u(start)}')
+            if s is None:
+                bind[target.elts[0].id] = ('other', f'position + {u(start)}') if shifted else IDX
+                bind_elem(target.elts[1], ELEM, bind)
+                return bind, self.srckey(x, at), frozenset(), notes
+            bind[target.elts[0].id] = ('other', f'rank + {u(start)}') if shifted else RANK
+            bind_elem(target.elts[1], s.elt, bind)
+            return bind, s.src, s.filt, notes + list(s.notes)
+        if isinstance(it, ast.Call) and isinstance(it.func, ast.Name) and it.func.id == 'range' and len(it.args) == 1 and not it.keywords \
+                and isinstance(it.args[0], ast.Call) and isinstance(it.args[0].func, ast.Name) and it.args[0].func.id == 'len' and len(it.args[0].args) == 1:
+            if not isinstance(target, ast.Name):
+                self.und(f'range target is not a name: {u(target)}')
+            x = it.args[0].args[0]
+            s = self.seq_of(x, at, depth + 1)
+            if s is None:
+                return {target.id: IDX}, self.srckey(x, at), frozenset(), notes
+            return {target.id: RANK}, s.src, s.filt, notes + list(s.notes)
+        s = self.seq_of(it, at, depth + 1)
+        bind = {}
+        if s is None:
+            if isinstance(it, ast.Call) and isinstance(it.func, ast.Name) and it.func.id in ('zip', 'map', 'filter', 'reversed', 'sorted', 'iter', 'range'):
+                self.und(f'unrecognised iteration construct {u(it)[:80]}')
+            if not isinstance(target, ast.Name):
+                self.und(f'loop target {u(target)} over a source sequence is not a single name')
+            bind[target.id] = ELEM
+            return bind, self.srckey(it, at), frozenset(), notes
+        bind_elem(target, s.elt, bind)
+        return bind, s.src, s.filt, notes + list(s.notes)
+
+    def classify(self, e, bind, src, at):
+        if isinstance(e, ast.Name) and e.id in bind:
+            return bind[e.id]
+        if isinstance(e, ast.Tuple):
+            return ('tuple', tuple(self.classify(x, bind, src, at) for x in e.elts))
+        if isinstance(e, ast.Subscript) and isinstance(e.slice, ast.Name) and bind.get(e.slice.id) in (IDX, RANK) and not isinstance(e.value, ast.Subscript):
+            if bind[e.slice.id] == IDX and self.srckey(e.value, at)[0] == src[0]:
+                return ELEM
+            return ('other', u(e) + (' (subscript is a rank in the filtered list, not a position of the source)' if bind[e.slice.id] == RANK else ' (another sequence)'))
+        if isinstance(e, ast.Subscript) and isinstance(e.value, ast.Name) and isinstance(bind.get(e.value.id), tuple) and bind[e.value.id][0] == 'tuple' \
+                and isinstance(e.slice, ast.Constant) and isinstance(e.slice.value, int) and -len(bind[e.value.id][1]) <= e.slice.value < len(bind[e.value.id][1]):
+            return bind[e.value.id][1][e.slice.value]
+        return ('other', u(e))
+
+    def keyfn(self, bind, src, at):
+        outer = self
+
+        class K(ast.NodeTransformer):
+            def visit_Name(self, node):
+                c = bind.get(node.id)
+                if c in (IDX, ELEM, RANK):
+                    return ast.Name(id=c, ctx=ast.Load())
+                return node
+
+            def visit_Subscript(self, node):
+                c = outer.classify(node, bind, src, at)
+                if c in (IDX, ELEM, RANK):
+                    return ast.Name(id=c, ctx=ast.Load())
+                return self.generic_visit(node)
+        return lambda n: u(K().visit(copy.deepcopy(n)))
+
+    def comp_form(self, comp, at, depth):
+        if len(comp.generators) != 1 or comp.generators[0].is_async:
+            self.und(f'comprehension with several generators: {u(comp)[:80]}')
+        g = comp.generators[0]
+        bind, src, inherited, notes = self.binder(g.target, g.iter, at, depth)
+        key = self.keyfn(bind, src, at)
+        filt = set(inherited)
+        for c in g.ifs:
+            a = atoms(c, True, key)
+            filt |= a if a is not None else {('cond', 'holds', key(c))}
+        return _Seq(src, src[2], filt, self.classify(comp.elt, bind, src, at), comp, 'comprehension', notes)
+
+    def loop_form(self, n, call, init, depth):
+        st = self.pm.get(call)
+        if not (isinstance(st, ast.Expr) and st.value is call) or len(call.args) != 1 or call.keywords:
+            self.und(f'{u(call)[:60]} is not a plain statement with one argument')
+        bp = block_path(self.fn, st)
+        if bp is None:
+            self.und(f'{u(call)[:60]} is inside a nested function')
+        loops = [o for (_, _, o) in bp if isinstance(o, (ast.For, ast.While, ast.AsyncFor))]
+        if not loops or not isinstance(loops[-1], ast.For):
+            self.und(f'{u(call)[:60]} is not inside a for loop')
+        loop = loops[-1]
+        if init.lineno > loop.lineno or any(o is not self.fn and isinstance(o, (ast.For, ast.While)) for (_, _, o) in block_path(self.fn, init)):
+            self.und(f'{n} is not initialised before its loop')
+        for x in ast.walk(loop):
+            if isinstance(x, (ast.Break, ast.Return)):
+                self.und(f'the loop filling {n} can stop early ({u(x)[:40]}): which positions are visited is not evaluated')
+        bind, src, inherited, notes = self.binder(loop.target, loop.iter, loop, depth)
+        for nm in bind:
+            if any(binds_deep(s, nm) for s in loop.body):
+                self.und(f'loop variable {nm} is rebound inside the loop')
+        if len(loops) > 1:
+            notes = list(notes) + ['nested in another loop']
+        key = self.keyfn(bind, src, st)
+        keep = (src[1],) if src[0][0] == 'def' else ()
+        filt = set(inherited) | _facts(self.fn, self.gm[st], key, keep)
+        return _Seq(src, src[2], filt, self.classify(_subst(self.fn, call.args[0], st, keep=keep), bind, src, st), st, 'append loop', notes)
+
+
+# ------------------------------------------------------------------------------------------ small evaluators
+
+def _truth_of(test, name, assume):
+    """Truth value of `test` when the boolean parameter `name` has truth value `assume`; None when test is something else."""
+    if isinstance(test, ast.Name) and test.id == name:
+        return assume
+    if isinstance(test, ast.UnaryOp) and isinstance(test.op, ast.Not):
+        t = _truth_of(test.operand, name, assume)
+        return None if t is None else not t
+    return None
+
+
+def _lookup_kind(fn, e, var, at, flag, assume, depth=0):
+    """How the element expression `e` of `[e for var in ids]` looks `var` up when parameter `flag` is `assume`:
+    ('get', dict) = d.get(var) -> None for an unknown key, ('item', dict) = d[var] -> KeyError, ('wrong', text), or None (unknown)."""
+    if depth > 6:
+        return None
+    if isinstance(e, ast.IfExp):
+        t = _truth_of(e.test, flag, assume)
+        return None if t is None else _lookup_kind(fn, e.body if t else e.orelse, var, at, flag, assume, depth + 1)
+    if isinstance(e, ast.Subscript):
+        return ('item', u(e.value)) if u(e.slice) == var and not isinstance(e.slice, ast.Slice) else ('wrong', u(e))
+    if isinstance(e, ast.Call) and e.args and u(e.args[0]) == var and not e.keywords:
+        f = e.func
+        hops = 0
+        while hops < 6:
+            hops += 1
+            if isinstance(f, ast.IfExp):
+                t = _truth_of(f.test, flag, assume)
+                if t is None:
+                    return None
+                f = f.body if t else f.orelse
+            elif isinstance(f, ast.Name):
+                _, v = _local_value(fn, f.id, at)
+                if v is None:
+                    return None
+                f = v
+            else:
+                break
+        if isinstance(f, ast.Attribute) and f.attr == '__getitem__' and len(e.args) == 1:
+            return ('item', u(f.value))
+        if isinstance(f, ast.Attribute) and f.attr == 'get' and (len(e.args) == 1 or (len(e.args) == 2 and is_none(e.args[1]))):
+            return ('get', u(f.value))
+        if isinstance(f, ast.Attribute) and f.attr in ('get', 'pop', 'setdefault'):
+            return ('wrong', u(e))
+    return None
+
+
+def _param_origin(fn, e, at):
+    """Name of the parameter whose elements, in order, the sequence expression `e` holds at statement `at`: e is the parameter,
+    a local bound to it, or an order-preserving copy (list(x) / tuple(x)) of such; None for anything else."""
+    for _ in range(8):
+        if isinstance(e, ast.Call) and isinstance(e.func, ast.Name) and e.func.id in ('list', 'tuple') and len(e.args) == 1 and not e.keywords:
+            e = e.args[0]
+        elif isinstance(e, ast.Name):
+            d = reaching_def(fn, e.id, at)
+            if d is PARAM:
+                return e.id
+            v = def_value(d) if isinstance(d, ast.stmt) else None
+            if v is None:
+                return None
+            e, at = v, d
+        else:
+            return None
+    return None
+
+
+def _require_params(rep, fn, names, at, where):
+    """The rule matched `names` textually as the function's parameters: that only means something while they still hold the
+    caller's values.  A parameter rebound to something derived from itself is outside what the rule evaluates."""
+    for nm in names:
+        rep.require(reaching_def(fn, nm, at) is PARAM, f'{where}: parameter {nm} is rebound before it is used here; the rule cannot evaluate the new value')
+
+
+def _parse_expr(text):
+    try:
+        return ast.parse(text, mode='eval').body
+    except SyntaxError:
+        return None
+
+
+def _fall_through_guards(fnode, gm):
+    """Guards that hold when control falls off the end of fnode's body (None when it never does)."""
+    last = fnode.body[-1]
+    g = list(gm[last])
+    if isinstance(last, ast.If) and not last.orelse and always_exits(last.body):
+        g.append((last.test, False))
+    elif always_exits([last]):
+        return None
+    return g
 
 
 def check(ctx):
     rep, m = ctx.rep, ctx.model
-    rep.rule('R1', 'genomes_by_id_subset: (index, genome) pairs from one enumerate over the per-id lookup list; both appends in one block under `g is not None`; lookup is non-strict and order-preserving over ids')
+    rep.rule('R1', 'genomes_by_id_subset: the two returned lists hold, for the same positions of the per-id lookup list (those whose entry is not None), the entry and the position; lookup is non-strict and order-preserving over ids')
     rep.rule('R2', '_map_ids_to_genomes: {added column: entity}')
     rep.rule('R3', 'ReferenceDatabase.__init__: raise on id_attr None; raise when matched count != genome count; ids and id_attr from the same signatures object')
     rep.rule('R4', '_check_genome_id_attr accepts only Genome.ID_ATTRS members')
@@ -33,83 +474,84 @@ def check(ctx):
     fn = fi.node
     gset, id_attr, ids = fi.params()[:3]
     gm = guard_map(fn)
-    appends = [c for c in calls_in(fn) if callee_attr(c) == 'append']
-    rep.floor('R1', 'append sites in genomes_by_id_subset', len(appends), 2)
     rets = [s for s in stmts_in(fn.body) if isinstance(s, ast.Return)]
     rep.require(len(rets) == 1 and isinstance(rets[0].value, ast.Tuple) and len(rets[0].value.elts) == 2, 'genomes_by_id_subset: does not return a pair')
-    gout, iout = (u(e) for e in rets[0].value.elts)
-    by_list = {}
-    for c in appends:
-        by_list.setdefault(u(c.func.value), []).append(c)
-    rep.require(set(by_list) == {gout, iout} and all(len(v) == 1 for v in by_list.values()), f'genomes_by_id_subset: appends do not target exactly the two returned lists: {sorted(by_list)}')
-    ga, ia = by_list[gout][0], by_list[iout][0]
-    gst = next(s for s in stmts_in(fn.body) if isinstance(s, ast.Expr) and s.value is ga)
-    ist = next(s for s in stmts_in(fn.body) if isinstance(s, ast.Expr) and s.value is ia)
-    bg, bi = block_path(fn, gst), block_path(fn, ist)
-    same_block = bg[-1][0] is bi[-1][0]
-    rep.add('R1', fi.site(ist), 'genome and index are appended in the same block (lists stay parallel)', same_block, expected='same block', found='different blocks' if not same_block else 'ok',
-            stmt='appends same block')
-    loop = next((o for (_, _, o) in reversed(bi) if isinstance(o, ast.For)), None)
-    rep.require(loop is not None, 'genomes_by_id_subset: index append is not in a for loop')
-    it = loop.iter
-    en = isinstance(it, ast.Call) and u(it.func) == 'enumerate' and len(it.args) == 1 and not it.keywords and isinstance(loop.target, ast.Tuple) \
-        and len(loop.target.elts) == 2 and all(isinstance(e, ast.Name) for e in loop.target.elts)
-    rep.add('R1', fi.site(loop), 'index and genome are bound together by one enumerate', en, expected='for i, g in enumerate(<lookup list>)', found=u(it), stmt='enumerate')
-    rep.require(en, 'genomes_by_id_subset: loop is not an enumerate')
-    iv, gv = (e.id for e in loop.target.elts)
-    rep.add('R1', fi.site(gst), 'the appended genome is the enumerated element', [u(a) for a in ga.args] == [gv], expected=f'append({gv})', found=u(ga), stmt='append genome')
-    rep.add('R1', fi.site(ist), 'the appended index is the position in the signature-ID list (not a running count)', [u(a) for a in ia.args] == [iv],
-            expected=f'append({iv})', found=u(ia), stmt='append index')
-    for st, name in ((gst, 'genome'), (ist, 'index')):
-        at = path_atoms(gm[st])
-        rep.add('R1', fi.site(st), f'{name} append is guarded by `{gv} is not None` (unmatched signature IDs are skipped together)', ('isnot', 'None', gv) in at,
-                expected=f'{gv} is not None', found=sorted(at), stmt=f'{name} guard')
-    src = it.args[0]
-    sv = src
-    if isinstance(src, ast.Name):
-        d = reaching_def(fn, src.id, loop)
-        sv = def_value(d) if d not in (None, PARAM, AMBIGUOUS) else None
-    ok = isinstance(sv, ast.Call) and m.resolve_call(fi, sv) == f'{MOD}.genomes_by_id' and [u(a) for a in sv.args[:3]] == [gset, id_attr, ids]
+    ge, ie = rets[0].value.elts
+    gout, iout = u(ge), u(ie)
+    dv = _Derive(fn, gm, 'genomes_by_id_subset')
+    G, I = dv.seq_of(ge, rets[0]), dv.seq_of(ie, rets[0])
+    rep.require(G is not None and I is not None, f'genomes_by_id_subset: returned lists are not built by a recognised construction (append loop / comprehension): {gout if G is None else iout}')
+    rep.floor('R1', 'element sites (append / comprehension element) of the two returned lists in genomes_by_id_subset', len({id(G.site), id(I.site)}), 2)
+    diff = G.filt ^ I.filt
+    if diff and not any(any(sym in str(x) for sym in (IDX, ELEM, RANK)) for a in diff for x in a[1:]):
+        raise Undecided(f'genomes_by_id_subset: the two lists are built under conditions that differ in facts not about the enumerated pair: {sorted(diff)}')
+    rep.add('R1', fi.site(I.site), 'genome and index are taken for the same positions (lists stay parallel)', G.src[0] == I.src[0] and not diff, expected='same source list, same condition',
+            found='ok' if G.src[0] == I.src[0] and not diff else f'genomes: {G.describe()} / indices: {I.describe()}', stmt='appends same block')
+    rep.add('R1', fi.site(I.site), 'index and genome are bound together by the position in the lookup list', not G.notes and not I.notes and G.src[0] == I.src[0],
+            expected='for i, g in enumerate(<lookup list>) or an equivalent pairing of position and entry', found=(G.describe(), I.describe()), stmt='enumerate')
+    rep.add('R1', fi.site(G.site), 'the genome list holds the entry at the enumerated position', G.elt == ELEM, expected='lookup[i]', found=G.describe(), stmt='append genome')
+    rep.add('R1', fi.site(I.site), 'the index list holds the position in the signature-ID list (not a running count)', I.elt == IDX,
+            expected='i', found=I.describe(), stmt='append index')
+    for sq, name in ((G, 'genome'), (I, 'index')):
+        rep.add('R1', fi.site(sq.site), f'{name} is kept only for `entry is not None` (unmatched signature IDs are skipped together)', ('isnot', ELEM, 'None') in sq.filt or ('isnot', 'None', ELEM) in sq.filt,
+                expected='<entry> is not None', found=sorted(sq.filt), stmt=f'{name} guard')
+    sv = G.src_node
+    site_l = sv if isinstance(sv, ast.AST) and hasattr(sv, 'lineno') else rets[0]
+    lst_ = enclosing_stmt(fn, sv, dv.pm) if isinstance(sv, ast.Call) else None
+    ok = isinstance(sv, ast.Call) and m.resolve_call(fi, sv) == f'{MOD}.genomes_by_id' and len(sv.args) >= 3 and [u(_subst(fn, a, lst_)) for a in sv.args[:2]] == [gset, id_attr] \
+        and _param_origin(fn, sv.args[2], lst_) == ids
     strict = get_arg(sv, 3, 'strict') if isinstance(sv, ast.Call) else None
-    rep.add('R1', fi.site(loop), 'the enumerated list is the per-ID lookup of the given ids', ok, expected=f'genomes_by_id({gset}, {id_attr}, {ids}, strict=False)', found=u(sv),
+    rep.add('R1', fi.site(site_l), 'the enumerated list is the per-ID lookup of the given ids', ok, expected=f'genomes_by_id({gset}, {id_attr}, {ids}, strict=False)', found=u(sv),
             stmt='lookup list')
-    rep.add('R1', fi.site(loop), 'the lookup is non-strict (unrelated signatures in the file are tolerated)', strict is not None and strict is not Ellipsis and is_const(strict, False),
+    if ok:
+        _require_params(rep, fn, (gset, id_attr), lst_, 'genomes_by_id_subset')
+    rep.add('R1', fi.site(site_l), 'the lookup is non-strict (unrelated signatures in the file are tolerated)', strict is not None and strict is not Ellipsis and is_const(strict, False),
             expected='strict=False', found=u(strict) if strict not in (None, Ellipsis) else strict, stmt='strict flag')
-    for lst in (gout, iout):
-        ds = assigns_to(fn, lst)
-        rep.add('R1', fi.site(ds[0] if ds else None), f'{lst} starts empty', len(ds) == 1 and isinstance(def_value(ds[0]), ast.List) and not def_value(ds[0]).elts,
-                expected='[]', found=[u(d) for d in ds], stmt=f'{lst} init')
+    for sq, lst in ((G, gout), (I, iout)):
+        if sq.how == 'append loop':
+            ds = assigns_to(fn, lst)
+            rep.add('R1', fi.site(ds[0] if ds else None), f'{lst} starts empty', len(ds) == 1 and isinstance(def_value(ds[0]), ast.List) and not def_value(ds[0]).elts,
+                    expected='[]', found=[u(d) for d in ds], stmt=f'{lst} init')
+        else:
+            rep.add('R1', fi.site(sq.site), f'{lst} starts empty', True, expected='fresh list', found='comprehension', stmt=f'{lst} init')
     # genomes_by_id: order-preserving comprehension over ids
     fb = m.func(f'{MOD}.genomes_by_id')
     rep.functions.add(fb.qualname)
     gmb = guard_map(fb.node)
     bp_ = fb.params()
     ids_b = bp_[2]
+    rep.require(len(bp_) > 3, 'genomes_by_id: no strict parameter')
+    strict_b = bp_[3]
     rets_b = [s for s in stmts_in(fb.node.body) if isinstance(s, ast.Return)]
-    rep.floor('R1', 'returns in genomes_by_id', len(rets_b), 2)
     dname = None
+    cases = []
     for r in rets_b:
-        at = path_atoms(gmb[r])
+        at = _facts(fb.node, gmb[r])
         v = r.value
-        okc = isinstance(v, ast.ListComp) and len(v.generators) == 1 and isinstance(v.generators[0].target, ast.Name)
-        rep.require(okc, f'genomes_by_id: return is not a list comprehension: {u(v)}')
-        one2one = not v.generators[0].ifs and u(v.generators[0].iter) == ids_b
-        rep.add('R1', fb.site(r), 'the lookup list has exactly one entry per id, in the order of ids', one2one, expected=f'for x in {ids_b} (no filter, no reordering)',
-                found=u(v), stmt=f'lookup order[{"strict" if ("true", "strict") in at else "non-strict"}]')
+        if isinstance(v, ast.Call) and isinstance(v.func, ast.Name) and v.func.id == 'list' and len(v.args) == 1 and not v.keywords and isinstance(v.args[0], ast.GeneratorExp):
+            v = v.args[0]
+        okc = isinstance(v, (ast.ListComp, ast.GeneratorExp)) and len(v.generators) == 1 and isinstance(v.generators[0].target, ast.Name)
+        rep.require(okc, f'genomes_by_id: return is not a list comprehension: {u(r.value)}')
+        rep.require(reaching_def(fb.node, strict_b, r) is PARAM, f'genomes_by_id: parameter {strict_b} is rebound before {u(r)[:60]}')
+        one2one = not v.generators[0].ifs and _param_origin(fb.node, v.generators[0].iter, r) == ids_b
+        modes = [True] if ('true', strict_b) in at else [False] if ('false', strict_b) in at else [True, False]
         t = v.generators[0].target.id
-        if ('false', 'strict') in at:
-            e = v.elt
-            okg = isinstance(e, ast.Call) and callee_attr(e) == 'get' and [u(a) for a in e.args] == [t]
-            rep.add('R1', fb.site(r), 'non-strict lookup yields one entry per id, None for unknown ids, in id order', okg, expected=f'[d.get({t}) for {t} in {ids_b}]', found=u(v),
-                    stmt='non-strict lookup')
-            if okg:
-                dname = u(e.func.value)
-        elif ('true', 'strict') in at:
-            e = v.elt
-            okg = isinstance(e, ast.Subscript) and u(e.slice) == t
-            rep.add('R1', fb.site(r), 'strict lookup raises KeyError for unknown ids', okg, expected=f'[d[{t}] for {t} in {ids_b}]', found=u(v), stmt='strict lookup')
-        else:
-            raise Undecided(f'genomes_by_id: return not controlled by strict: {u(r)}')
+        for mode in modes:
+            cases.append((r, mode))
+            label = 'strict' if mode else 'non-strict'
+            rep.add('R1', fb.site(r), 'the lookup list has exactly one entry per id, in the order of ids', one2one, expected=f'for x in {ids_b} (no filter, no reordering)',
+                    found=u(v), stmt=f'lookup order[{label}]')
+            k = _lookup_kind(fb.node, v.elt, t, r, strict_b, mode)
+            rep.require(k is not None, f'genomes_by_id: cannot tell how {u(v.elt)} looks up {t} when {strict_b} is {mode}')
+            if not mode:
+                rep.add('R1', fb.site(r), 'non-strict lookup yields one entry per id, None for unknown ids, in id order', k[0] == 'get', expected=f'[d.get({t}) for {t} in {ids_b}]', found=u(v) + f' -> {k}',
+                        stmt='non-strict lookup')
+                if k[0] == 'get':
+                    dname = k[1]
+            else:
+                rep.add('R1', fb.site(r), 'strict lookup raises KeyError for unknown ids', k[0] == 'item', expected=f'[d[{t}] for {t} in {ids_b}]', found=u(v) + f' -> {k}', stmt='strict lookup')
+    rep.floor('R1', 'lookup cases (return x strict mode) in genomes_by_id', len(cases), 2)
+    rep.require({mode for (_, mode) in cases} == {True, False}, 'genomes_by_id: the returns do not cover both strict modes')
     rep.account_returns('R1', fb, rets_b, 'lookup list')
     rep.account_returns('R1', fi, rets, 'matched (genomes, indices) pair')
     rep.require(dname is not None, 'genomes_by_id: non-strict lookup dict not identified')
@@ -153,70 +595,144 @@ def check(ctx):
     fc = m.func(f'{MOD}.ReferenceDatabase.__init__')
     rep.functions.add(fc.qualname)
     cn = fc.node
-    _, gsetp, sigp = fc.params()[:3]
+    selfp, gsetp, sigp = fc.params()[:3]
     gmc = guard_map(cn)
+    pmc = find_parent_map(cn)
     raises = [s for s in stmts_in(cn.body) if isinstance(s, ast.Raise)]
     sub_calls = [c for c in calls_in(cn) if m.resolve_call(fc, c) == f'{MOD}.genomes_by_id_subset']
     rep.require(len(sub_calls) == 1, 'ReferenceDatabase.__init__: expected one genomes_by_id_subset call')
     sc = sub_calls[0]
-    sst = next(s for s in stmts_in(cn.body) if isinstance(s, ast.Assign) and s.value is sc)
-    tg = sst.targets[0]
-    okt = isinstance(tg, ast.Tuple) and [u(e) for e in tg.elts] == ['self.genomes', 'self.sig_indices']
-    rep.add('R3', fc.site(sst), 'matched genomes and their signature positions are stored in the returned order (genomes, indices)', okt, expected='self.genomes, self.sig_indices = ...',
-            found=u(tg), stmt='pair unpack')
-    a_id = sc.args[1] if len(sc.args) > 1 else None
-    idv = a_id
-    if isinstance(a_id, ast.Name):
-        d = reaching_def(cn, a_id.id, sst)
-        idv = def_value(d) if d not in (None, PARAM, AMBIGUOUS) else None
+    sst = next((s for s in stmts_in(cn.body) if isinstance(s, ast.Assign) and s.value is sc), None)
+    rep.require(sst is not None, f'ReferenceDatabase.__init__: the result of genomes_by_id_subset is not bound by an assignment: {u(enclosing_stmt(cn, sc, pmc))[:80]}')
+    rep.require(not any(isinstance(o, (ast.For, ast.While)) for (_, _, o) in block_path(cn, sst)), 'ReferenceDatabase.__init__: genomes_by_id_subset is called in a loop')
+    sc_text = u(_subst(cn, sc, sst))
+    # every store to an attribute of self: text -> [(statement, stored value expression or None)]
+    stores = {}
+    for s in stmts_in(cn.body):
+        if isinstance(s, ast.Assign):
+            for t in s.targets:
+                if isinstance(t, ast.Attribute):
+                    stores.setdefault(u(t), []).append((s, s.value))
+                elif isinstance(t, (ast.Tuple, ast.List)):
+                    for k, e in enumerate(t.elts):
+                        if isinstance(e, ast.Attribute):
+                            if isinstance(s.value, (ast.Tuple, ast.List)) and len(s.value.elts) == len(t.elts):
+                                val = s.value.elts[k]
+                            elif any(isinstance(x, ast.Starred) for x in t.elts):
+                                val = None
+                            else:
+                                val = ast.copy_location(ast.Subscript(value=s.value, slice=ast.Constant(value=k), ctx=ast.Load()), s.value)
+                            stores.setdefault(u(e), []).append((s, val))
+        elif isinstance(s, (ast.AugAssign, ast.AnnAssign)) and isinstance(s.target, ast.Attribute):
+            stores.setdefault(u(s.target), []).append((s, getattr(s, 'value', None) if isinstance(s, ast.AnnAssign) else None))
+        elif isinstance(s, (ast.For, ast.With)):
+            for t in ast.walk(s.target) if isinstance(s, ast.For) else [x for i in s.items if i.optional_vars is not None for x in ast.walk(i.optional_vars)]:
+                if isinstance(t, ast.Attribute) and isinstance(t.ctx, ast.Store):
+                    stores.setdefault(u(t), []).append((s, None))
+
+    def stored(attr):
+        """Text of the one value unconditionally stored to self.<attr> (locals read through), else a description of why not."""
+        ss = stores.get(f'{selfp}.{attr}', [])
+        if len(ss) != 1:
+            return None, f'{len(ss)} stores to {selfp}.{attr}'
+        s, val = ss[0]
+        if s not in cn.body:
+            return None, f'{selfp}.{attr} is stored conditionally: {u(s)[:60]}'
+        if val is None:
+            return None, f'unrecognised store {u(s)[:60]}'
+        return u(_subst(cn, val, s)), None
+
+    got_g, why_g = stored('genomes')
+    got_i, why_i = stored('sig_indices')
+    okt = got_g == f'{sc_text}[0]' and got_i == f'{sc_text}[1]'
+    sst_g = stores.get(f'{selfp}.genomes', [(sst, None)])[0][0]
+    rep.add('R3', fc.site(sst_g), 'matched genomes and their signature positions are stored in the returned order (genomes, indices)', okt,
+            expected=f'{selfp}.genomes = <subset result>[0]; {selfp}.sig_indices = <subset result>[1]',
+            found=(why_g or got_g, why_i or got_i), stmt='pair unpack')
+    _MUT = ('sort', 'reverse', 'append', 'extend', 'insert', 'pop', 'remove', 'clear', '__setitem__', '__delitem__')
+    both = (f'{selfp}.genomes', f'{selfp}.sig_indices', f'{sc_text}[0]', f'{sc_text}[1]')
+    touched = [c for c in calls_in(cn) if isinstance(c.func, ast.Attribute) and c.func.attr in _MUT and u(_subst(cn, c.func.value, enclosing_stmt(cn, c, pmc))) in both]
+    touched += [t for s in stmts_in(cn.body) if isinstance(s, (ast.Assign, ast.AugAssign, ast.Delete)) for t in (s.targets if hasattr(s, 'targets') else [s.target])
+                if isinstance(t, ast.Subscript) and u(_subst(cn, t.value, s)) in both]
+    rep.add('R3', fc.site(touched[0] if touched else sst), 'the two matched lists are not modified in place after matching (a re-ordering of one would break the pairing)', not touched,
+            expected='no in-place modification', found=[u(t)[:60] for t in touched], stmt='lists unmodified')
+    arg = [_subst(cn, a, sst) for a in sc.args]
     rep.add('R3', fc.site(sst), 'ids and the id attribute come from the same signatures object; genomes from the given genome set',
-            u(sc.args[0]) == gsetp and u(idv) == f'{sigp}.meta.id_attr' and u(sc.args[2]) == f'{sigp}.ids', expected=f'({gsetp}, {sigp}.meta.id_attr, {sigp}.ids)',
-            found=(u(sc.args[0]), u(idv), u(sc.args[2]) if len(sc.args) > 2 else None), stmt='subset arguments')
-    idname = a_id.id if isinstance(a_id, ast.Name) else u(a_id)
-    at = path_atoms(gmc[sst])
-    rep.add('R3', fc.site(sst), 'a missing id attribute is refused before matching', ('isnot', 'None', idname) in at, expected=f'{idname} is not None on the path', found=sorted(at),
+            len(arg) == 3 and not sc.keywords and u(arg[0]) == gsetp and u(arg[1]) == f'{sigp}.meta.id_attr' and u(arg[2]) == f'{sigp}.ids',
+            expected=f'({gsetp}, {sigp}.meta.id_attr, {sigp}.ids)', found=tuple(u(a) for a in arg), stmt='subset arguments')
+    _require_params(rep, cn, (gsetp, sigp), sst, 'ReferenceDatabase.__init__')
+    at = _facts(cn, gmc[sst])
+    idt = u(arg[1]) if len(arg) > 1 else None
+    rep.add('R3', fc.site(sst), 'a missing id attribute is refused before matching', ('isnot', 'None', idt) in at, expected=f'{idt} is not None on the path', found=sorted(at),
             stmt='id_attr guard')
     # completeness: on the normal exit, len(self.genomes) == genomeset.genomes.count()
     end_guards = list(gmc[cn.body[-1]])
     last = cn.body[-1]
     if isinstance(last, ast.If) and not last.orelse and raises and all(isinstance(x, (ast.Raise, ast.Assign, ast.Expr)) for x in last.body) and isinstance(last.body[-1], ast.Raise):
         end_guards.append((last.test, False))
-    env = {}
-    for s in cn.body:
-        if isinstance(s, ast.Assign) and isinstance(s.targets[0], ast.Name):
-            env[s.targets[0].id] = u(s.value)
-
-    def key(n):
-        t = u(n)
-        return env.get(t, t)
-    eat = path_atoms(end_guards, key=key)
     cnt = f'{gsetp}.genomes.count()'
-    okc = ('eq', *sorted(['len(self.genomes)', cnt])) in eat or ('eq', *sorted(['len(self.sig_indices)', cnt])) in eat
-    rep.add('R3', fc.site(last), 'a database object exists only if every genome of the set was matched to a signature', okc, expected=f'len(self.genomes) == {cnt} on every normal exit',
+    table = {cnt: lambda: ast.Name(id='SET_COUNT', ctx=ast.Load()),
+             f'{sc_text}[0]': lambda: ast.Name(id='MATCHED_GENOMES', ctx=ast.Load()),
+             f'{sc_text}[1]': lambda: ast.Name(id='MATCHED_INDICES', ctx=ast.Load())}
+    if okt:
+        # the attributes hold exactly these values from their (single, unconditional) store on
+        table[f'{selfp}.genomes'] = table[f'{sc_text}[0]']
+        table[f'{selfp}.sig_indices'] = table[f'{sc_text}[1]']
+    eat = set()
+    for t, p in _xguards(cn, end_guards):
+        a = atoms(_replace(t, table), p)
+        if a:
+            eat |= a
+    want = [Aff({f'len({x})': 1, 'SET_COUNT': -1}) for x in ('MATCHED_GENOMES', 'MATCHED_INDICES')]
+    okc = False
+    for a in eat:
+        dif = None
+        if a[0] == 'eq':
+            l, r = (Aff.try_of(_parse_expr(x)) if _parse_expr(x) is not None else None for x in a[1:])
+            dif = l.sub(r) if l is not None and r is not None else None
+        elif a[0] == 'false':      # `if n - len(genomes): raise`  -> zero on the normal exit
+            dif = Aff.try_of(_parse_expr(a[1])) if _parse_expr(a[1]) is not None else None
+            if dif is not None and not dif.terms:
+                dif = None
+        if dif is not None and any(dif == w or dif == w.scale(-1) for w in want):
+            okc = True
+    rep.add('R3', fc.site(last), 'a database object exists only if every genome of the set was matched to a signature', okc, expected=f'len({selfp}.genomes) == {cnt} on every normal exit',
             found=sorted(eat), stmt='completeness guard')
     for s in stmts_in(cn.body):
         if isinstance(s, ast.Return):
             rep.add('R3', fc.site(s), 'no early return bypasses the completeness check', False, expected='none', found=u(s), stmt='early return')
-    stores = {u(s.targets[0]): u(s.value) for s in cn.body if isinstance(s, ast.Assign) and isinstance(s.targets[0], ast.Attribute)}
-    rep.add('R3', fc.site(), 'the object keeps the very signatures / genome set it was matched against', stores.get('self.signatures') == sigp and stores.get('self.genomeset') == gsetp,
-            expected=f'self.signatures = {sigp}; self.genomeset = {gsetp}', found=stores, stmt='stored members')
+    got_s, why_s = stored('signatures')
+    got_gs, why_gs = stored('genomeset')
+    rep.add('R3', fc.site(), 'the object keeps the very signatures / genome set it was matched against', got_s == sigp and got_gs == gsetp,
+            expected=f'{selfp}.signatures = {sigp}; {selfp}.genomeset = {gsetp}', found=(why_s or got_s, why_gs or got_gs), stmt='stored members')
 
     # ---------------------------------------------------------------------------------- R4
     fk = m.func(f'{MOD}._check_genome_id_attr')
     rep.functions.add(fk.qualname)
     gmk = guard_map(fk.node)
     ap = fk.params()[0]
-    pmk = find_parent_map(fk.node)
     lastk = fk.node.body[-1]
     rep.add('R4', fk.site(lastk), 'anything not whitelisted raises ValueError', isinstance(lastk, ast.Raise) and raised_name(lastk) == 'ValueError', expected='raise ValueError',
             found=u(lastk)[:60], stmt='reject')
     for r in [s for s in stmts_in(fk.node.body) if isinstance(s, ast.Return)]:
-        at = path_atoms(gmk[r])
+        rep.require(reaching_def(fk.node, ap, r) is PARAM, f'_check_genome_id_attr: parameter {ap} is rebound before {u(r)[:60]}')
+        xg = _xguards(fk.node, gmk[r])
+        at = path_atoms(xg)
         in_whitelist = any(a[0] == 'in' and a[1] == ap and a[2].endswith('ID_ATTRS') for a in at)
         bp = block_path(fk.node, r)
         loop = next((o for (_, _, o) in reversed(bp) if isinstance(o, ast.For)), None)
         via_loop = loop is not None and u(loop.iter).endswith('ID_ATTRS') and any(a[0] == 'is' and ap in a for a in at)
-        rep.add('R4', fk.site(r), 'an attribute is accepted only when it is one of Genome.ID_ATTRS', in_whitelist or via_loop, expected='membership in Genome.ID_ATTRS',
+        # `any(attr is getattr(Genome, name) for name in Genome.ID_ATTRS)` holds on the path: the loop above, written as a quantifier
+        via_any = False
+        for t, p in xg:
+            for c in (t.values if isinstance(t, ast.BoolOp) and isinstance(t.op, ast.And) and p else [t]):
+                if p and isinstance(c, ast.Call) and isinstance(c.func, ast.Name) and c.func.id == 'any' and len(c.args) == 1 and not c.keywords \
+                        and isinstance(c.args[0], (ast.GeneratorExp, ast.ListComp)) and len(c.args[0].generators) == 1:
+                    gen = c.args[0].generators[0]
+                    ea = atoms(c.args[0].elt, True) or set()
+                    if u(gen.iter).endswith('ID_ATTRS') and any(a[0] == 'is' and ap in a[1:] for a in ea):
+                        via_any = True
+        rep.add('R4', fk.site(r), 'an attribute is accepted only when it is one of Genome.ID_ATTRS', in_whitelist or via_loop or via_any, expected='membership in Genome.ID_ATTRS',
                 found=sorted(at), stmt=r)
     gcls = m.cls('gambit.db.models.Genome')
     ida = gcls.class_attrs.get('ID_ATTRS')
@@ -229,62 +745,122 @@ def check(ctx):
     fl = m.func(f'{MOD}.ReferenceDatabase.locate_files')
     rep.functions.add(fl.qualname)
     ln = fl.node
+    gml = guard_map(ln)
+    dl = _Derive(ln, gml, 'locate_files', ordered=False)
     helpers = [s for s in ln.body if isinstance(s, ast.FunctionDef)]
-    pops = [c for c in calls_in(ln) if callee_attr(c) == 'pop' and not c.args]
-    groups = []
-    for s in ln.body:
-        if isinstance(s, ast.Assign) and isinstance(s.value, (ast.SetComp, ast.ListComp)) and isinstance(s.targets[0], ast.Name):
-            comp = s.value
-            ifs = comp.generators[0].ifs
-            if len(ifs) == 1 and isinstance(ifs[0], ast.Compare) and isinstance(ifs[0].ops[0], ast.In) and u(ifs[0].left).endswith('.suffix'):
-                try:
-                    groups.append((s.targets[0].id, tuple(ast.literal_eval(ifs[0].comparators[0])), s))
-                except Exception:
-                    raise Undecided('locate_files: suffix group is not a literal')
-    rep.floor('R5', 'suffix groups in locate_files', len(groups), 2)
-    sufs = sorted(tuple(sorted(g[1])) for g in groups)
-    rep.add('R5', fl.site(), 'the two groups are the genome-database and signature-file extensions', sufs == [('.db', '.gdb'), ('.gs', '.h5')], expected="('.gdb','.db'), ('.gs','.h5')",
-            found=sufs, stmt='suffix groups')
-    # the single-match checker: raises DatabaseLoadError under n != 1, n = len(matches)
-    single = None
-    for h in helpers:
+
+    class _Rename(ast.NodeTransformer):
+        def __init__(self, mp_):
+            self.mp = mp_
+
+        def visit_Name(self, node):
+            return copy.deepcopy(self.mp[node.id]) if node.id in self.mp else node
+
+    def helper_summary(h, call):
+        """(facts holding after `h(args)` returned normally, [(raise statement, facts under which it is raised)]), in terms of the arguments."""
         hp = [a.arg for a in h.args.args]
+        if len(call.args) > len(hp) or call.keywords or any(isinstance(a, ast.Starred) for a in call.args) or h.args.vararg or h.args.kwarg:
+            return set(), []
+        mp_ = dict(zip(hp, call.args))
+        if any(any(binds_deep(s, p) for s in h.body) for p in mp_):
+            return set(), []
+        key = lambda n: u(_Rename(mp_).visit(copy.deepcopy(n)))   # noqa: E731
         hg = guard_map(h)
-        rs = [s for s in stmts_in(h.body) if isinstance(s, ast.Raise)]
-        henv = {}
-        for s in h.body:
-            if isinstance(s, ast.Assign) and isinstance(s.targets[0], ast.Name):
-                henv[s.targets[0].id] = u(s.value)
-        for r in rs:
-            at = path_atoms(hg[r], key=lambda n: henv.get(u(n), u(n)))
-            if raised_name(r) and raised_name(r).endswith('DatabaseLoadError') and ('ne', '1', f'len({hp[0]})') in at and len(at) == 1:
-                single = h
-    rep.add('R5', fl.site(helpers[0] if helpers else None), 'the single-match helper raises DatabaseLoadError exactly when the number of matches is not 1', single is not None,
-            expected='if len(matches) != 1: raise DatabaseLoadError', found=[u(h.body[-1])[:60] for h in helpers], stmt='single-match helper')
-    for name, sfx, st in groups:
-        pp = [c for c in pops if u(c.func.value) == name]
-        chk = [s for s in ln.body if isinstance(s, ast.Expr) and isinstance(s.value, ast.Call) and single is not None and u(s.value.func) == single.name
-               and s.value.args and u(s.value.args[0]) == name]
-        pop_st = next((s for s in ln.body if any(x in pp for x in ast.walk(s))), None)
-        ok = len(pp) == 1 and len(chk) == 1 and pop_st is not None and st.lineno < chk[0].lineno < pop_st.lineno
-        rep.add('R5', fl.site(pop_st if pop_st is not None else st), f'{sfx}: the match set is checked to hold exactly one file before one is taken', ok, expected='check_single_match(matches) before matches.pop()',
-                found=(len(chk), len(pp)), stmt=f'single {sfx}')
-        gen = st.value.generators[0]
-        rep.add('R5', fl.site(st), f'{sfx}: candidates are the direct children of the given directory', u(gen.iter) in ('path.iterdir()', 'Path(path).iterdir()'), expected='path.iterdir()',
-                found=u(gen.iter), stmt=f'candidates {sfx}')
+        post = set()
+        ft = _fall_through_guards(h, hg)
+        if ft is not None and not any(isinstance(s, ast.Return) for s in stmts_in(h.body)):
+            post = _facts(h, ft, key)
+        return post, [(r, _facts(h, hg[r], key)) for r in stmts_in(h.body) if isinstance(r, ast.Raise)]
+
+    def facts_at(st):
+        """Path facts at statement st of locate_files, plus the post-conditions of the nested checking helpers called (as plain
+        statements of the function body) before the top-level statement that contains st."""
+        out = _facts(ln, gml[st])
+        top = block_path(ln, st)[0][1]
+        for s in ln.body[:top]:
+            if isinstance(s, ast.Expr) and isinstance(s.value, ast.Call) and isinstance(s.value.func, ast.Name):
+                for h in helpers:
+                    if h.name == s.value.func.id and h.lineno < s.lineno and len([x for x in helpers if x.name == h.name]) == 1:
+                        out |= helper_summary(h, s.value)[0]
+        return out
+
+    def error_sites(mname):
+        """Raise statements reached when the number of matches in `mname` is not 1."""
+        atom = ('ne', '1', f'len({mname})')
+        out = [r for r in stmts_in(ln.body) if isinstance(r, ast.Raise) and atom in _facts(ln, gml[r])]
+        for s in ln.body:
+            if isinstance(s, ast.Expr) and isinstance(s.value, ast.Call) and isinstance(s.value.func, ast.Name):
+                for h in helpers:
+                    if h.name == s.value.func.id and len([x for x in helpers if x.name == h.name]) == 1:
+                        out += [r for (r, f) in helper_summary(h, s.value)[1] if atom in f]
+        return out
+
     lastl = ln.body[-1]
     okr = isinstance(lastl, ast.Return) and isinstance(lastl.value, ast.Tuple) and len(lastl.value.elts) == 2
+    groups = []    # (returned position, collection name, suffix tuple, _Seq, statement that takes the file)
     if okr:
-        # first returned is the genome file (pop of the gdb group), second the signature file
-        def origin(e):
-            d = reaching_def(ln, e.id, lastl) if isinstance(e, ast.Name) else None
-            v = def_value(d) if d not in (None, PARAM, AMBIGUOUS) else None
-            return u(v.func.value) if isinstance(v, ast.Call) and isinstance(v.func, ast.Attribute) else None
-        o = [origin(e) for e in lastl.value.elts]
-        gname = next((g[0] for g in groups if '.gdb' in g[1]), None)
-        sname = next((g[0] for g in groups if '.gs' in g[1]), None)
-        okr = o == [gname, sname]
-    rep.add('R5', fl.site(lastl), 'returns (genome file, signature file) in that order', okr, expected='(genomes_file, signatures_file)', found=u(lastl)[:80], stmt='locate result order')
+        for pos, e in enumerate(lastl.value.elts):
+            rep.require(isinstance(e, ast.Name), f'locate_files: returned element {u(e)} is not a local')
+            ds = assigns_to(ln, e.id)
+            rep.require(len(ds) == 1 and def_value(ds[0]) is not None, f'locate_files: {e.id} is not bound exactly once by a plain assignment')
+            tv = _subst(ln, def_value(ds[0]), ds[0])     # `x = M[0]; file = x` is `file = M[0]`
+            mexpr = None
+            if isinstance(tv, ast.Call) and isinstance(tv.func, ast.Attribute) and tv.func.attr == 'pop' and not tv.keywords and (not tv.args or (len(tv.args) == 1 and is_const(tv.args[0], 0))):
+                mexpr = tv.func.value
+            elif isinstance(tv, ast.Subscript) and (is_const(tv.slice, 0) or u(tv.slice) == '-1'):
+                mexpr = tv.value
+            elif isinstance(tv, ast.Call) and u(tv.func) == 'next' and len(tv.args) == 1 and isinstance(tv.args[0], ast.Call) and u(tv.args[0].func) == 'iter' and len(tv.args[0].args) == 1:
+                mexpr = tv.args[0].args[0]
+            rep.require(isinstance(mexpr, ast.Name), f'locate_files: unrecognised way of taking the single file: {e.id} = {u(tv)[:80]}')
+            if reaching_def(ln, mexpr.id, ds[0]) is None and assigns_to(ln, mexpr.id):
+                rep.add('R5', fl.site(ds[0]), 'the file is taken from a match set that was built and checked before', False, expected=f'{mexpr.id} built and checked to hold exactly one file first',
+                        found=f'{u(ds[0])[:60]}: {mexpr.id} is only assigned later', stmt=f'single [{pos}]')
+                continue
+            sq = dl.seq_of(mexpr, ds[0])
+            rep.require(sq is not None, f'locate_files: {mexpr.id} is not a collection built by a recognised construction (comprehension / append loop)')
+            sufs, extra = None, []
+            for a in sq.filt:
+                if a[0] == 'in' and a[1] == f'{ELEM}.suffix' and sufs is None:
+                    try:
+                        sufs = tuple(ast.literal_eval(a[2]))
+                    except Exception:
+                        raise Undecided('locate_files: suffix group is not a literal')
+                else:
+                    extra.append(a)
+            rep.require(sufs is not None and all(isinstance(x, str) for x in sufs), f'locate_files: {mexpr.id} is not selected by `<entry>.suffix in <literal>`: {sorted(sq.filt)}')
+            groups.append([pos, mexpr.id, sufs, sq, ds[0], extra])
+        # further conditions on a group are tolerated only when they are implied: `suffix not in <a disjoint literal group>`
+        for gr in groups:
+            for a in gr[5]:
+                implied = False
+                if a[0] == 'notin' and a[1] == f'{ELEM}.suffix':
+                    try:
+                        implied = not set(ast.literal_eval(a[2])) & set(gr[2])
+                    except Exception:
+                        implied = False
+                rep.require(implied, f'locate_files: {gr[1]} is selected under a further condition the rule cannot evaluate: {a}')
+    rep.add('R5', fl.site(lastl), 'returns a (genome file, signature file) pair', okr, expected='(genomes_file, signatures_file)', found=u(lastl)[:80], stmt='locate result pair')
+    rep.floor('R5', 'suffix groups in locate_files', len(groups), 2)
+    sufs = sorted(tuple(sorted(g[2])) for g in groups)
+    rep.add('R5', fl.site(), 'the two groups are the genome-database and signature-file extensions', sufs == [('.db', '.gdb'), ('.gs', '.h5')], expected="('.gdb','.db'), ('.gs','.h5')",
+            found=sufs, stmt='suffix groups')
+    for pos, name, sfx, sq, take, _ in groups:
+        fa = facts_at(take)
+        ok = ('eq', '1', f'len({name})') in fa
+        rep.add('R5', fl.site(take), f'{sfx}: the match set is checked to hold exactly one file before one is taken', ok, expected=f'len({name}) == 1 established before {u(take)[:40]}',
+                found=sorted(fa), stmt=f'single {sfx}')
+        errs = error_sites(name)
+        rep.add('R5', fl.site(errs[0] if errs else take), f'{sfx}: DatabaseLoadError is raised when the number of matches is not 1',
+                bool(errs) and all((raised_name(r) or '').endswith('DatabaseLoadError') for r in errs), expected='raise DatabaseLoadError under len(matches) != 1',
+                found=[u(r)[:50] for r in errs], stmt=f'single-match error {sfx}')
+        srcx, wrapped = _strip_materialise(_subst(ln, sq.src_node, sq.site if isinstance(sq.site, ast.stmt) else enclosing_stmt(ln, sq.site, dl.pm)))
+        shared_iter = sq.src[0][0] == 'def' and not wrapped and any(o[3].src[0] == sq.src[0] and o[3].site is not sq.site for o in groups if o[1] != name)
+        rep.add('R5', fl.site(sq.site), f'{sfx}: candidates are the direct children of the given directory', sq.elt == ELEM and not sq.notes and not shared_iter
+                and u(srcx) in ('path.iterdir()', 'Path(path).iterdir()'), expected='entries of path.iterdir()',
+                found=sq.describe() + f' [{u(srcx)}]' + (' (one iterator consumed by both groups)' if shared_iter else ''), stmt=f'candidates {sfx}')
+    gpos = next((g[0] for g in groups if '.gdb' in g[2]), None)
+    spos = next((g[0] for g in groups if '.gs' in g[2]), None)
+    rep.add('R5', fl.site(lastl), 'returns (genome file, signature file) in that order', (gpos, spos) == (0, 1), expected='(genomes_file, signatures_file)', found=u(lastl)[:80], stmt='locate result order')
     # loaders
     fload = m.func(f'{MOD}.ReferenceDatabase.load')
     rep.functions.add(fload.qualname)
@@ -293,42 +869,80 @@ def check(ctx):
     rep.require(len(retl) == 1 and isinstance(retl[0].value, ast.Call), 'ReferenceDatabase.load: no single constructor return')
     ctor = retl[0].value
 
-    def origin_call(e):
-        d = reaching_def(fload.node, e.id, retl[0]) if isinstance(e, ast.Name) else None
-        if isinstance(d, ast.Assign) and isinstance(d.value, ast.Call):
-            return m.resolve_call(fload, d.value), [u(a) for a in d.value.args]
+    cargs = [a for a in ctor.args if not isinstance(a, ast.Starred)]
+    ca = [_subst(fload.node, a, retl[0]) for a in cargs]
+
+    def call_of(e, index=None):
+        """(resolved callee, argument texts) of a call expression, or of `<call>[index]` when an index is required."""
+        if index is not None:
+            if not (isinstance(e, ast.Subscript) and is_const(e.slice, index)):
+                return None, None
+            e = e.value
+        if isinstance(e, ast.Call) and not e.keywords:
+            return m.resolve_call(fload, e), [u(a) for a in e.args]
         return None, None
-    o1, o2 = origin_call(ctor.args[0]), origin_call(ctor.args[1])
+    o1 = call_of(ca[0], 1) if len(ca) == 2 else (None, None)
+    o2 = call_of(ca[1]) if len(ca) == 2 else (None, None)
     rep.add('R6', fload.site(retl[0]), 'load() builds the database from the genome set of the genome file and the signatures of the signature file',
-            u(ctor.func) == 'cls' and o1 == (f'{MOD}.load_genomeset', [lp[1]]) and o2[0] in ('gambit.sigs.base.load_signatures',) and o2[1] == [lp[2]],
-            expected=f'cls(load_genomeset({lp[1]})[1], load_signatures({lp[2]}))', found=(o1, o2), stmt='load')
+            u(ctor.func) == 'cls' and len(ctor.args) == 2 and not ctor.keywords and o1 == (f'{MOD}.load_genomeset', [lp[1]]) and o2 == ('gambit.sigs.base.load_signatures', [lp[2]]),
+            expected=f'cls(load_genomeset({lp[1]})[1], load_signatures({lp[2]}))', found=[u(a) for a in ca], stmt='load')
+    _require_params(rep, fload.node, (lp[1], lp[2]), retl[0], 'ReferenceDatabase.load')
     fdir = m.func(f'{MOD}.ReferenceDatabase.load_from_dir')
     rep.functions.add(fdir.qualname)
-    body = [s for s in fdir.node.body if not (isinstance(s, ast.Expr) and isinstance(s.value, ast.Constant))]
-    okd = len(body) == 2 and isinstance(body[0], ast.Assign) and isinstance(body[0].targets[0], ast.Tuple) and u(body[0].value) == f'cls.locate_files({fdir.params()[1]})' \
-        and isinstance(body[1], ast.Return) and u(body[1].value) == f'cls.load({", ".join(u(e) for e in body[0].targets[0].elts)})'
+    retd = [s for s in stmts_in(fdir.node.body) if isinstance(s, ast.Return)]
+    dparam = fdir.params()[1]
+    loc = f'cls.locate_files({dparam})'
+    okd, seen_d = False, [u(r)[:80] for r in retd]
+    if len(retd) == 1 and isinstance(retd[0].value, ast.Call) and u(retd[0].value.func) == 'cls.load' and not retd[0].value.keywords:
+        la = retd[0].value.args
+        if len(la) == 1 and isinstance(la[0], ast.Starred):
+            seen_d = ['*' + u(_subst(fdir.node, la[0].value, retd[0]))]
+            okd = seen_d == ['*' + loc]
+        elif not any(isinstance(a, ast.Starred) for a in la):
+            seen_d = [u(_subst(fdir.node, a, retd[0])) for a in la]
+            okd = seen_d == [f'{loc}[0]', f'{loc}[1]']
     rep.add('R6', fdir.site(), 'load_from_dir passes the located (genome file, signature file) pair to load() in order', okd, expected='cls.load(*cls.locate_files(path))',
-            found=[u(s) for s in body], stmt='load_from_dir')
+            found=seen_d, stmt='load_from_dir')
+    if okd:
+        _require_params(rep, fdir.node, (dparam,), retd[0], 'ReferenceDatabase.load_from_dir')
 
     # ---------------------------------------------------------------------------------- R6
     fq = m.func('gambit.query.query')
     rep.functions.add(fq.qualname)
     dbp = fq.params()[0]
+    pmq = find_parent_map(fq.node)
     mats = [c for c in calls_in(fq.node) if m.resolve_call(fq, c) == 'gambit.metric.jaccarddist_matrix']
     rep.require(len(mats) == 1, 'query: expected one jaccarddist_matrix call')
     mc = mats[0]
-    refs = get_arg(mc, 1, 'refs')
-    ri = get_arg(mc, 2, 'ref_indices')
+    mst = enclosing_stmt(fq.node, mc, pmq)
+    refs, ri = get_arg(mc, 1, 'refs'), get_arg(mc, 2, 'ref_indices')
+    refs = refs if refs is None or refs is Ellipsis else _subst(fq.node, refs, mst)
+    ri = ri if ri is None or ri is Ellipsis else _subst(fq.node, ri, mst)
     rep.add('R6', fq.site(mc), 'distances are computed against the database signatures selected by the genome<->signature index list of the same object',
-            u(refs) == f'{dbp}.signatures' and u(ri) == f'{dbp}.sig_indices', expected=f'({dbp}.signatures, ref_indices={dbp}.sig_indices)', found=(u(refs), u(ri)), stmt='matrix operands')
+            refs is not Ellipsis and ri is not Ellipsis and u(refs) == f'{dbp}.signatures' and u(ri) == f'{dbp}.sig_indices',
+            expected=f'({dbp}.signatures, ref_indices={dbp}.sig_indices)', found=(u(refs) if refs is not Ellipsis else '*', u(ri) if ri is not Ellipsis else '*'), stmt='matrix operands')
     items = [c for c in calls_in(fq.node) if m.resolve_call(fq, c) == 'gambit.query.get_result_item']
-    rep.add('R6', fq.site(items[0] if items else mc), 'classification receives the same database object', len(items) == 1 and u(items[0].args[0]) == dbp, expected=f'get_result_item({dbp}, ...)',
-            found=[u(c)[:60] for c in items], stmt='classify operand')
+    item_db = [u(_subst(fq.node, c.args[0], enclosing_stmt(fq.node, c, pmq))) if c.args and not isinstance(c.args[0], ast.Starred) else None for c in items]
+    rep.add('R6', fq.site(items[0] if items else mc), 'classification receives the same database object', len(items) == 1 and item_db[0] == dbp,
+            expected=f'get_result_item({dbp}, ...)', found=[u(c)[:60] for c in items], stmt='classify operand')
+    _require_params(rep, fq.node, (dbp,), mst, 'query')
+    if len(items) == 1:
+        _require_params(rep, fq.node, (dbp,), enclosing_stmt(fq.node, items[0], pmq), 'query')
     fg = m.func('gambit.query.get_result_item')
     rep.functions.add(fg.qualname)
+    pmg = find_parent_map(fg.node)
+    gp = fg.params()
     cls_calls = [c for c in calls_in(fg.node) if m.resolve_call(fg, c) == 'gambit.classify.classify']
-    rep.add('R6', fg.site(cls_calls[0] if cls_calls else None), 'column j of the distance row is judged with genome j of the same database', len(cls_calls) == 1 and u(cls_calls[0].args[0]) == f'{fg.params()[0]}.genomes'
-            and u(cls_calls[0].args[1]) == fg.params()[2], expected='classify(db.genomes, dists)', found=[u(c)[:60] for c in cls_calls], stmt='classify genomes')
+    okg = False
+    seen = []
+    if len(cls_calls) == 1 and len(cls_calls[0].args) >= 2 and not any(isinstance(a, ast.Starred) for a in cls_calls[0].args[:2]):
+        cst = enclosing_stmt(fg.node, cls_calls[0], pmg)
+        seen = [u(_subst(fg.node, a, cst)) for a in cls_calls[0].args[:2]]
+        okg = seen == [f'{gp[0]}.genomes', gp[2]]
+    rep.add('R6', fg.site(cls_calls[0] if cls_calls else None), 'column j of the distance row is judged with genome j of the same database', okg,
+            expected='classify(db.genomes, dists)', found=[u(c)[:60] for c in cls_calls] + seen, stmt='classify genomes')
+    if okg:
+        _require_params(rep, fg.node, (gp[0], gp[2]), enclosing_stmt(fg.node, cls_calls[0], pmg), 'get_result_item')
     # "every distance reported for a genome is computed from that signature": the matrix must select the reference chunk and the
     # output columns through the same slice of ref_indices (C05-B5), re-evaluated here
     from . import c05
@@ -338,7 +952,8 @@ def check(ctx):
     fcli = m.func('gambit.cli.common.CLIContext.get_database')
     rep.functions.add(fcli.qualname)
     retc = [s for s in stmts_in(fcli.node.body) if isinstance(s, ast.Return)]
-    okc = len(retc) == 1 and isinstance(retc[0].value, ast.Call) and m.resolve_call(fcli, retc[0].value) == f'{MOD}.ReferenceDatabase' and u(retc[0].value.args[1]) == 'self.signatures'
+    okc = len(retc) == 1 and isinstance(retc[0].value, ast.Call) and m.resolve_call(fcli, retc[0].value) == f'{MOD}.ReferenceDatabase' and len(retc[0].value.args) == 2 \
+        and not isinstance(retc[0].value.args[1], ast.Starred) and u(_subst(fcli.node, retc[0].value.args[1], retc[0])) == 'self.signatures'
     rep.add('R6', fcli.site(retc[0] if retc else None), 'the CLI builds the database through the checked constructor with the located signature file', okc, expected='ReferenceDatabase(gset, self.signatures)',
             found=[u(r)[:80] for r in retc], stmt='cli get_database')
 
@@ -346,6 +961,63 @@ def check(ctx):
 from ..variants import V  # noqa: E402
 
 _R = 'src/gambit/db/refdb.py'
+_Q = 'src/gambit/query.py'
+_SUBSET_OLD = "\tgenomes_out = []\n\tidxs_out = []\n\n\tfor i, g in enumerate(genomes):\n\t\tif g is not None:\n\t\t\tgenomes_out.append(g)\n\t\t\tidxs_out.append(i)\n"
+_BYID_OLD = "\tif strict:\n\t\treturn [d[id_] for id_ in ids]\n\telse:\n\t\treturn [d.get(id_) for id_ in ids]\n"
+_INIT_OLD = "\t\tself.genomes, self.sig_indices = genomes_by_id_subset(genomeset, id_attr, signatures.ids)\n\n\t\tn = genomeset.genomes.count()\n\t\tif len(self.genomes) != n:\n\t\t\tmissing = n - len(self.genomes)\n"
+_IDLOOP_OLD = "\t\tfor allowed_name in Genome.ID_ATTRS:\n\t\t\tallowed = getattr(Genome, allowed_name)\n\t\t\tif attr is allowed:\n\t\t\t\treturn attr\n"
+_LOCATE_OLD = """\t\tdef check_single_match(matches, desc: str):
+\t\t\tn = len(matches)
+\t\t\tif n != 1:
+\t\t\t\traise DatabaseLoadError(
+\t\t\t\t\tf'{"Multiple" if n else "No"} {desc} files found in directory {path}',
+\t\t\t\t\tdirectory=path,
+\t\t\t\t)
+
+\t\tgenomes_matches = {f for f in path.iterdir() if f.suffix in ('.gdb', '.db')}
+\t\tcheck_single_match(genomes_matches, 'genome database (.gdb or .db)')
+\t\tgenomes_file = genomes_matches.pop()
+
+\t\tsignatures_matches = {f for f in path.iterdir() if f.suffix in ('.gs', '.h5')}
+\t\tcheck_single_match(signatures_matches, 'signature (.gs or .h5)')
+\t\tsignatures_file = signatures_matches.pop()
+"""
+_LOCATE_ONEPASS = """\t\tgenomes_matches = []
+\t\tsignatures_matches = []
+
+\t\tfor f in path.iterdir():
+\t\t\tif f.suffix in ('.gdb', '.db'):
+\t\t\t\tgenomes_matches.append(f)
+\t\t\telif f.suffix in ('.gs', '.h5'):
+\t\t\t\tsignatures_matches.append(f)
+
+\t\tdef pick_only(matches: list, desc: str) -> Path:
+\t\t\tif len(matches) == 1:
+\t\t\t\treturn matches[0]
+\t\t\tcount = 'Multiple' if matches else 'No'
+\t\t\traise DatabaseLoadError(
+\t\t\t\tf'{count} {desc} files found in directory {path}',
+\t\t\t\tdirectory=path,
+\t\t\t)
+
+\t\tgenomes_file = pick_only(genomes_matches, 'genome database (.gdb or .db)')
+\t\tsignatures_file = pick_only(signatures_matches, 'signature (.gs or .h5)')
+"""
+_LOCATE_LISTED = """\t\tfiles = list(path.iterdir())
+
+\t\tdef pick_only(extensions, desc: str) -> Path:
+\t\t\tmatches = [f for f in files if f.suffix in extensions]
+\t\t\tif len(matches) == 1:
+\t\t\t\treturn matches[0]
+\t\t\tcount = 'Multiple' if matches else 'No'
+\t\t\traise DatabaseLoadError(
+\t\t\t\tf'{count} {desc} files found in directory {path}',
+\t\t\t\tdirectory=path,
+\t\t\t)
+
+\t\tgenomes_file = pick_only(('.gdb', '.db'), 'genome database (.gdb or .db)')
+\t\tsignatures_file = pick_only(('.gs', '.h5'), 'signature (.gs or .h5)')
+"""
 VARIANTS = [
     V('index = running count', 'B', _R, "\t\t\tidxs_out.append(i)\n", "\t\t\tidxs_out.append(len(idxs_out))\n", 'R1'),
     V('index append outside the guard', 'B', _R, "\t\tif g is not None:\n\t\t\tgenomes_out.append(g)\n\t\t\tidxs_out.append(i)\n", "\t\tif g is not None:\n\t\t\tgenomes_out.append(g)\n\t\tidxs_out.append(i)\n", 'R1'),
@@ -368,6 +1040,88 @@ VARIANTS = [
     V('E: guard written as early continue', 'E', _R, "\t\tif g is not None:\n\t\t\tgenomes_out.append(g)\n\t\t\tidxs_out.append(i)\n",
       "\t\tif g is None:\n\t\t\tcontinue\n\t\tgenomes_out.append(g)\n\t\tidxs_out.append(i)\n"),
     V('E: completeness compared the other way round', 'E', _R, "if len(self.genomes) != n:", "if n != len(self.genomes):"),
-    V('E: id_attr inline', 'E', _R, "\t\tself.genomes, self.sig_indices = genomes_by_id_subset(genomeset, id_attr, signatures.ids)",
-      "\t\tself.genomes, self.sig_indices = genomes_by_id_subset(genomeset, id_attr, signatures.ids)  # unchanged"),
+    # ---- generalised idioms: every E (new accepted form) is followed by its broken twin(s) B in the same shape
+    V('E: (index, genome) pair comprehension + two projections', 'E', _R, _SUBSET_OLD,
+      "\tmatched = [(i, g) for i, g in enumerate(genomes) if g is not None]\n\tgenomes_out = [g for _, g in matched]\n\tidxs_out = [i for i, _ in matched]\n"),
+    V('pair comprehension: projections swapped', 'B', _R, _SUBSET_OLD,
+      "\tmatched = [(i, g) for i, g in enumerate(genomes) if g is not None]\n\tgenomes_out = [g for g, _ in matched]\n\tidxs_out = [i for _, i in matched]\n", 'R1'),
+    V('pair comprehension: index = rank in the filtered list', 'B', _R, _SUBSET_OLD,
+      "\tmatched = [(i, g) for i, g in enumerate(genomes) if g is not None]\n\tgenomes_out = [g for _, g in matched]\n\tidxs_out = [i for i, _ in enumerate(matched)]\n", 'R1'),
+    V('E: index comprehension, genomes looked up by those indices', 'E', _R, _SUBSET_OLD,
+      "\tidxs_out = [i for i, g in enumerate(genomes) if g is not None]\n\tgenomes_out = [genomes[i] for i in idxs_out]\n"),
+    V('index comprehension: genomes looked up by rank', 'B', _R, _SUBSET_OLD,
+      "\tidxs_out = [i for i, g in enumerate(genomes) if g is not None]\n\tgenomes_out = [genomes[i] for i in range(len(idxs_out))]\n", 'R1'),
+    V('index comprehension: enumerate starts at 1', 'B', _R, _SUBSET_OLD,
+      "\tidxs_out = [i for i, g in enumerate(genomes, 1) if g is not None]\n\tgenomes_out = [g for g in genomes if g is not None]\n", 'R1'),
+    V('E: two independent comprehensions under the same filter', 'E', _R, _SUBSET_OLD,
+      "\tgenomes_out = [g for g in genomes if g is not None]\n\tidxs_out = [i for i, g in enumerate(genomes) if g is not None]\n"),
+    V('two comprehensions: index list not filtered', 'B', _R, _SUBSET_OLD,
+      "\tgenomes_out = [g for g in genomes if g is not None]\n\tidxs_out = [i for i, g in enumerate(genomes)]\n", 'R1'),
+    V('two comprehensions: indices of the unmatched ids', 'B', _R, _SUBSET_OLD,
+      "\tgenomes_out = [g for g in genomes if g is not None]\n\tidxs_out = [i for i, g in enumerate(genomes) if g is None]\n", 'R1'),
+    V('E: loop over range(len()), entry bound to a local', 'E', _R, "\tfor i, g in enumerate(genomes):\n\t\tif g is not None:\n", "\tfor i in range(len(genomes)):\n\t\tg = genomes[i]\n\t\tif g is not None:\n"),
+    V('range(len()) loop: entry read at another position', 'B', _R, "\tfor i, g in enumerate(genomes):\n\t\tif g is not None:\n", "\tfor i in range(len(genomes)):\n\t\tg = genomes[i - 1]\n\t\tif g is not None:\n", 'R1'),
+    V('E: lookup function selected once by strict', 'E', _R, _BYID_OLD, "\tlookup = d.__getitem__ if strict else d.get\n\treturn [lookup(id_) for id_ in ids]\n"),
+    V('lookup function selection inverted', 'B', _R, _BYID_OLD, "\tlookup = d.get if strict else d.__getitem__\n\treturn [lookup(id_) for id_ in ids]\n", 'R1'),
+    V('lookup function: non-strict falls back to the first genome', 'B', _R, _BYID_OLD, "\tlookup = d.__getitem__ if strict else d.get\n\treturn [lookup(id_) for id_ in sorted(ids)]\n", 'R1'),
+    V('E: conditional expression per element', 'E', _R, _BYID_OLD, "\treturn [d[id_] if strict else d.get(id_) for id_ in ids]\n"),
+    V('conditional expression per element inverted', 'B', _R, _BYID_OLD, "\treturn [d.get(id_) if strict else d[id_] for id_ in ids]\n", 'R1'),
+    V('E: ids copied to a list first', 'E', _R, _BYID_OLD, "\tid_list = list(ids)\n\tif strict:\n\t\treturn [d[id_] for id_ in id_list]\n\telse:\n\t\treturn [d.get(id_) for id_ in id_list]\n"),
+    V('E: ids parameter rebound to a list copy of itself', 'E', _R, _BYID_OLD, "\tids = list(ids)\n" + _BYID_OLD),
+    V('ids parameter rebound to a transformed list', 'B', _R, _BYID_OLD, "\tids = [str(id_).strip() for id_ in ids]\n" + _BYID_OLD, 'R1'),
+    V('ids sorted into a local first', 'B', _R, _BYID_OLD, "\tid_list = sorted(ids)\n\tif strict:\n\t\treturn [d[id_] for id_ in id_list]\n\telse:\n\t\treturn [d.get(id_) for id_ in id_list]\n", 'R1'),
+    V('E: subset result bound to locals, then stored; completeness on the difference', 'E', _R, _INIT_OLD,
+      "\t\tgenomes, sig_indices = genomes_by_id_subset(genomeset, id_attr, signatures.ids)\n\t\tself.genomes = genomes\n\t\tself.sig_indices = sig_indices\n\n\t\tn = genomeset.genomes.count()\n\t\tmissing = n - len(genomes)\n\t\tif missing != 0:\n"),
+    V('locals stored crossed', 'B', _R, _INIT_OLD,
+      "\t\tgenomes, sig_indices = genomes_by_id_subset(genomeset, id_attr, signatures.ids)\n\t\tself.genomes = sig_indices\n\t\tself.sig_indices = genomes\n\n\t\tn = genomeset.genomes.count()\n\t\tmissing = n - len(genomes)\n\t\tif missing != 0:\n", 'R3'),
+    V('completeness on the difference, only one direction', 'B', _R, _INIT_OLD,
+      "\t\tgenomes, sig_indices = genomes_by_id_subset(genomeset, id_attr, signatures.ids)\n\t\tself.genomes = genomes\n\t\tself.sig_indices = sig_indices\n\n\t\tn = genomeset.genomes.count()\n\t\tmissing = n - len(genomes)\n\t\tif missing > 1:\n", 'R3'),
+    V('locals stored after re-sorting the genomes only', 'B', _R, _INIT_OLD,
+      "\t\tgenomes, sig_indices = genomes_by_id_subset(genomeset, id_attr, signatures.ids)\n\t\tself.genomes = sorted(genomes, key=lambda g: g.genome_id)\n\t\tself.sig_indices = sig_indices\n\n\t\tn = genomeset.genomes.count()\n\t\tmissing = n - len(genomes)\n\t\tif missing != 0:\n", 'R3'),
+    V('stored genome list sorted in place afterwards', 'B', _R, "\t\tn = genomeset.genomes.count()\n", "\t\tself.genomes.sort(key=lambda g: g.genome_id)\n\t\tn = genomeset.genomes.count()\n", 'R3'),
+    V('completeness counts another list', 'B', _R, _INIT_OLD,
+      "\t\tgenomes, sig_indices = genomes_by_id_subset(genomeset, id_attr, signatures.ids)\n\t\tself.genomes = genomes\n\t\tself.sig_indices = sig_indices\n\n\t\tn = genomeset.genomes.count()\n\t\tmissing = n - len(signatures.ids)\n\t\tif missing != 0:\n", 'R3'),
+    V('E: completeness tested by truthiness of the difference', 'E', _R, "\t\tif len(self.genomes) != n:\n", "\t\tif n - len(self.genomes):\n"),
+    V('truthiness of the difference inverted', 'B', _R, "\t\tif len(self.genomes) != n:\n", "\t\tif not (n - len(self.genomes)):\n", 'R3'),
+    V('E: id_attr read inline (no local)', 'E', _R, "\t\tid_attr = signatures.meta.id_attr\n\t\tif id_attr is None:\n", "\t\tif signatures.meta.id_attr is None:\n",
+      also=((_R, "genomes_by_id_subset(genomeset, id_attr, signatures.ids)", "genomes_by_id_subset(genomeset, signatures.meta.id_attr, signatures.ids)"),)),
+    V('id_attr read inline, guard tests the metadata object instead', 'B', _R, "\t\tid_attr = signatures.meta.id_attr\n\t\tif id_attr is None:\n", "\t\tif signatures.meta is None:\n",
+      'R3', also=((_R, "genomes_by_id_subset(genomeset, id_attr, signatures.ids)", "genomes_by_id_subset(genomeset, signatures.meta.id_attr, signatures.ids)"),)),
+    V('E: whitelist condition bound to a name first', 'E', _R, "\tif isinstance(attr, str) and attr in Genome.ID_ATTRS:\n", "\tis_valid_name = isinstance(attr, str) and attr in Genome.ID_ATTRS\n\tif is_valid_name:\n"),
+    V('named whitelist condition without the membership test', 'B', _R, "\tif isinstance(attr, str) and attr in Genome.ID_ATTRS:\n", "\tis_valid_name = isinstance(attr, str) and hasattr(Genome, attr)\n\tif is_valid_name:\n", 'R4'),
+    V('E: identity search written with any()', 'E', _R, _IDLOOP_OLD, "\t\tif any(attr is getattr(Genome, name) for name in Genome.ID_ATTRS):\n\t\t\treturn attr\n"),
+    V('any() searches every attribute of Genome', 'B', _R, _IDLOOP_OLD, "\t\tif any(attr is getattr(Genome, name, None) for name in dir(Genome)):\n\t\t\treturn attr\n", 'R4'),
+    V('any() tests the type only', 'B', _R, _IDLOOP_OLD, "\t\tif any(isinstance(attr, type(getattr(Genome, name))) for name in Genome.ID_ATTRS):\n\t\t\treturn attr\n", 'R4'),
+    V('E: one directory pass sorting entries into two lists; helper returns the single entry', 'E', _R, _LOCATE_OLD, _LOCATE_ONEPASS),
+    V('one directory pass: helper accepts any non-empty list', 'B', _R, _LOCATE_OLD, _LOCATE_ONEPASS.replace("if len(matches) == 1:", "if len(matches) >= 1:"), 'R5'),
+    V('one directory pass: entries sorted into the wrong lists', 'B', _R, _LOCATE_OLD,
+      _LOCATE_ONEPASS.replace("\t\t\t\tgenomes_matches.append(f)", "\t\t\t\tTMP.append(f)").replace("\t\t\t\tsignatures_matches.append(f)", "\t\t\t\tgenomes_matches.append(f)").replace("TMP.append", "signatures_matches.append"), 'R5'),
+    V('one directory pass: wrong error type', 'B', _R, _LOCATE_OLD, _LOCATE_ONEPASS.replace("raise DatabaseLoadError(", "raise FileNotFoundError(").replace("\t\t\t\tdirectory=path,\n", ""), 'R5'),
+    V('E: directory listed once, helper filters by extension', 'E', _R, _LOCATE_OLD, _LOCATE_LISTED),
+    V('directory iterator shared by both groups (second group always empty)', 'B', _R, _LOCATE_OLD, _LOCATE_LISTED.replace("files = list(path.iterdir())", "files = path.iterdir()"), 'R5'),
+    V('listed once: helper takes the first of several', 'B', _R, _LOCATE_OLD, _LOCATE_LISTED.replace("if len(matches) == 1:", "if matches:"), 'R5'),
+    V('E: guard clause in the function body instead of a checking helper', 'E', _R, "\t\tcheck_single_match(genomes_matches, 'genome database (.gdb or .db)')\n",
+      "\t\tif len(genomes_matches) != 1:\n\t\t\traise DatabaseLoadError('genome database file not unique', directory=path)\n"),
+    V('guard clause only refuses several files', 'B', _R, "\t\tcheck_single_match(genomes_matches, 'genome database (.gdb or .db)')\n",
+      "\t\tif len(genomes_matches) > 1:\n\t\t\traise DatabaseLoadError('genome database file not unique', directory=path)\n", 'R5'),
+    V('E: located pair passed on by star-unpacking', 'E', _R, "\t\tgenomes_file, signatures_file = cls.locate_files(path)\n\t\treturn cls.load(genomes_file, signatures_file)", "\t\treturn cls.load(*cls.locate_files(path))"),
+    V('star-unpacked pair reversed', 'B', _R, "\t\tgenomes_file, signatures_file = cls.locate_files(path)\n\t\treturn cls.load(genomes_file, signatures_file)", "\t\treturn cls.load(*reversed(cls.locate_files(path)))", 'R6'),
+    V('E: located pair kept as one local and indexed', 'E', _R, "\t\tgenomes_file, signatures_file = cls.locate_files(path)\n\t\treturn cls.load(genomes_file, signatures_file)",
+      "\t\tfiles = cls.locate_files(path)\n\t\treturn cls.load(files[0], files[1])"),
+    V('located pair indexed crossed', 'B', _R, "\t\tgenomes_file, signatures_file = cls.locate_files(path)\n\t\treturn cls.load(genomes_file, signatures_file)",
+      "\t\tfiles = cls.locate_files(path)\n\t\treturn cls.load(files[1], files[0])", 'R6'),
+    V('E: load() without intermediate locals', 'E', _R, "\t\tsession, gset = load_genomeset(genomes_file)\n\t\tsigs = load_signatures(signatures_file)\n\t\treturn cls(gset, sigs)",
+      "\t\treturn cls(load_genomeset(genomes_file)[1], load_signatures(signatures_file))"),
+    V('load() passes the session instead of the genome set', 'B', _R, "\t\tsession, gset = load_genomeset(genomes_file)\n\t\tsigs = load_signatures(signatures_file)\n\t\treturn cls(gset, sigs)",
+      "\t\treturn cls(load_genomeset(genomes_file)[0], load_signatures(signatures_file))", 'R6'),
+    V('file taken from the other (not yet built) match set', 'B', _R, "genomes_file = genomes_matches.pop()", "genomes_file = signatures_matches.pop()", 'R5'),
+    V('E: db.genomes bound to a local before classification', 'E', _Q, "\tclsresult = classify(db.genomes, dists, strict=params.classify_strict)\n",
+      "\tgenomes = db.genomes\n\tclsresult = classify(genomes, dists, strict=params.classify_strict)\n"),
+    V('local holds the genome set order instead of the matched order', 'B', _Q, "\tclsresult = classify(db.genomes, dists, strict=params.classify_strict)\n",
+      "\tgenomes = list(db.genomeset.genomes)\n\tclsresult = classify(genomes, dists, strict=params.classify_strict)\n", 'R6'),
+    V('E: index list bound to a local before the matrix call', 'E', _Q, "\tdmat = jaccarddist_matrix(\n", "\tsig_indices = db.sig_indices\n\tdmat = jaccarddist_matrix(\n",
+      also=((_Q, "\t\tref_indices=db.sig_indices,\n", "\t\tref_indices=sig_indices,\n"),)),
+    V('local index list dropped when the counts agree (seeded C04a, reduced)', 'B', _Q, "\tdmat = jaccarddist_matrix(\n",
+      "\tsig_indices = db.sig_indices if len(db.sig_indices) < len(db.signatures) else None\n\tdmat = jaccarddist_matrix(\n", 'R6',
+      also=((_Q, "\t\tref_indices=db.sig_indices,\n", "\t\tref_indices=sig_indices,\n"),)),
 ]
